@@ -51,9 +51,9 @@ DEFAULT_MACROS = ['textbf', 'emph', 'frac', 'sqrt', 'section', 'item', '\\', 'te
                   'label', 'newcommand', 'includegraphics', 'footnote', 'textcolor', 'alpha', 'zzunknown', 'verb', 'cite',
                   'documentclass', 'chapter', 'texorpdfstring', 'mathbf', 'url', 'ldots', '%', '&', ',', ' ']
 DEFAULT_ENVS = ['itemize', 'center', 'equation', 'align*', 'tabular', 'zzunknownenv', 'verbatim', 'lstlisting', 'array',
-                'enumerate', 'figure', 'alignat']
+                'enumerate', 'figure', 'alignat', 'zz' + 'long.name-' * 7]
 CUSTOM_MACROS = ['ma', 'mb', 'mc', 'md', 'mv', 'mw', 'mz', 'mt', 'mm', 'mq', '\\', 'unk']
-CUSTOM_ENVS = ['ea', 'eb', 'em', 'e*', 'zz']
+CUSTOM_ENVS = ['ea', 'eb', 'em', 'e*', 'zz', 'zz' + 'q' * 61, 'zz' + 'w' * 130]
 
 _sig_cache = {}
 
@@ -74,7 +74,7 @@ def _pools(ctx, sig):
         return DEFAULT_MACROS, DEFAULT_ENVS, ['~', '``', "''", '--', '---', '&'], ['alpha', 'beta', 'zz', 'i', 'in', 'ne', 'e',
                                                                                    'nd', 'gin', 'ben']
     mac = [m for m in CUSTOM_MACROS if ctx == 'custom' or m != 'unk']
-    env = [e for e in CUSTOM_ENVS if ctx == 'custom' or e != 'zz']
+    env = [e for e in CUSTOM_ENVS if ctx == 'custom' or not e.startswith('zz')]
     return mac, env, ['~', '!!', '@', '--', '---', '&'], (['mz', 'e', 'nd', 'in'] if ctx == 'custom' else ['mz'])
 
 
@@ -125,6 +125,7 @@ def gen_cases(seed, tier):
             cases.append({'wire': [999], 'nt': True,
                           'desc': {'ctx': 'chained', 's': head + '{' + b + '}', 'tolerant': False, 'origin': 'argument-delta',
                                    'twin': '\\plain{' + b + '}'}})
+    cases += PC.twin_cases(rnd, 250 if tier == 'quick' else 4000)
     return cases
 
 
@@ -161,6 +162,8 @@ def oracle(c):
     d = c['desc']
     if d.get('origin') == 'argument-delta':
         return _oracle_argdelta(d)
+    if d.get('origin') == 'chained-twin':
+        return PC.oracle_twin(d)
     if d.get('doc') is None:
         return None
     r = PC.real_parse(d)
